@@ -42,7 +42,15 @@ def run_case(ctx, i, rng):
     pa, la = gen.pose(rng, k, maxexp)
     pb, lb = gen.pose(rng, k, maxexp)
     pt, _ = gen.pose(rng, kp, maxexp)
-    if rng.random() < 0.2:
+    if rng.random() < 0.12:
+        # far from the origin but close together (map coordinates such as UTM metres, separations from millimetres to metres)
+        nt0 = {"r2": 2, "r3": 3, "se2": 2, "se3": 3}[k]
+        shift = [float(rng.choice([-1.0, 1.0]) * 10.0 ** rng.uniform(4, 7)) for _ in range(nt0)]
+        sep = float(10 ** rng.uniform(-3, 0.5))
+        pa = [sh + float(d) for sh, d in zip(shift, rng.normal(size=nt0) * sep)] + list(pa[nt0:])
+        pb = [sh + float(d) for sh, d in zip(shift, rng.normal(size=nt0) * sep)] + list(pb[nt0:])
+        ctx.count("class:far_from_origin_close_together")
+    elif rng.random() < 0.2:
         # operands that coincide in part (equal values in distinct objects): same orientation, same position, one shared coordinate, all equal
         pb, how = gen.coincide(rng, k, pa, pb)
         ctx.count("class:operands_coincide:" + how)
